@@ -310,4 +310,136 @@ theorem lookup_order_independent (l1 l2 : List (Str × Str)) (hp : l1.Perm l2) (
       alookup_insertAll l1 hnd k [], alookup_insertAll l2 hnd2 k [], find_perm l1 l2 hp hnd k]
 
 
+/-! ### list elements with quoting syntax -/
+
+/-- the quoting state machine of TrimmedCSVSeq on one list element: `none` = an unquoted comma was met -/
+def qscan (q : Bool × Bool) (c : Char) : Option (Bool × Bool) :=
+  if q.2 then some (q.1, false)
+  else if c = '\\' then some (q.1, true)
+  else if c = '"' then some (!q.1, false)
+  else if c = ',' && !q.1 then none
+  else some (q.1, false)
+
+def qscanAll : Bool × Bool → Str → Option (Bool × Bool)
+  | q, [] => some q
+  | q, c :: r => match qscan q c with
+    | none => none
+    | some q' => qscanAll q' r
+
+/-- a list element in the sense of RFC 9110 §5.6.1: every quoted-string in it is closed, no quoted-pair
+    is cut off, and commas occur only inside quoted-strings (or escaped) -/
+def closedElem (e : Str) : Bool := qscanAll (false, false) e = some (false, false)
+
+theorem csvRun_closed : ∀ (e : Str) (q q' : Bool × Bool), qscanAll q e = some q' →
+    ∀ (st : CsvSt), st.inQuotes = q.1 → st.escape = q.2 →
+    csvRun st e = { st with part := e.reverse ++ st.part, inQuotes := q'.1, escape := q'.2 } := by
+  intro e
+  induction e with
+  | nil =>
+    intro q q' h st hq he
+    simp only [qscanAll, Option.some.injEq] at h
+    subst h
+    cases st; simp_all [csvRun]
+  | cons c cs ih =>
+    intro q q' h st hq he
+    simp only [qscanAll] at h
+    cases hs : qscan q c with
+    | none => rw [hs] at h; cases h
+    | some q1 =>
+      rw [hs] at h
+      have hstep : csvStep st c = { st with part := c :: st.part, inQuotes := q1.1, escape := q1.2 } := by
+        unfold qscan at hs
+        unfold csvStep
+        rw [he, hq]
+        by_cases h1 : q.2 = true
+        · simp only [h1, ↓reduceIte, Option.some.injEq] at hs ⊢; subst hs; rfl
+        · simp only [h1, Bool.false_eq_true, ↓reduceIte] at hs ⊢
+          by_cases h2 : c = '\\'
+          · simp only [h2, ↓reduceIte, Option.some.injEq] at hs ⊢; subst hs
+            cases st; simp_all
+          · simp only [h2, ↓reduceIte] at hs ⊢
+            by_cases h3 : c = '"'
+            · simp only [h3, ↓reduceIte, Option.some.injEq] at hs ⊢; subst hs
+              cases st; simp_all
+            · simp only [h3, ↓reduceIte] at hs ⊢
+              by_cases h4 : (decide (c = ',') && !q.1) = true
+              · simp [h4] at hs
+              · simp only [h4, Bool.false_eq_true, ↓reduceIte, Option.some.injEq] at hs ⊢; subst hs
+                cases st; simp_all
+      unfold csvRun
+      simp only [List.foldl_cons, hstep]
+      have := ih q1 q' h { st with part := c :: st.part, inQuotes := q1.1, escape := q1.2 } rfl rfl
+      unfold csvRun at this
+      rw [this]
+      simp
+
+theorem plain_closed_aux (e : Str) (he : e.all plainChar = true) : qscanAll (false, false) e = some (false, false) := by
+  induction e with
+  | nil => rfl
+  | cons c cs ih =>
+    simp only [List.all_cons, Bool.and_eq_true] at he
+    have hc := he.1
+    unfold plainChar at hc
+    simp only [Bool.and_eq_true, decide_eq_true_eq] at hc
+    obtain ⟨⟨h1, h2⟩, h3⟩ := hc
+    simp [qscanAll, qscan, h1, h2, h3, ih he.2]
+
+theorem plain_closed (e : Str) (he : e.all plainChar = true) : closedElem e = true := by
+  unfold closedElem; simp [plain_closed_aux e he]
+
+theorem csv_join_closed (elems : List Str) (hp : ∀ e ∈ elems, closedElem e = true) : ∀ (o : List Str),
+    csvFinish (csvRun { part := [], inQuotes := false, escape := false, out := o } (joinWith [','] elems)) =
+      o.reverse ++ (elems.map trimString).filter (fun p => !p.isEmpty) := by
+  induction elems with
+  | nil => intro o; simp [joinWith, csvRun, csvFinish]
+  | cons e rest ih =>
+    intro o
+    have he : qscanAll (false, false) e = some (false, false) := by
+      have := hp e List.mem_cons_self
+      unfold closedElem at this; simpa using this
+    cases rest with
+    | nil =>
+      simp only [joinWith]
+      rw [csvRun_closed e _ _ he _ rfl rfl]
+      unfold csvFinish
+      simp only [List.append_nil]
+      by_cases hemp : e = []
+      · subst hemp; simp [trimString, trimBoth, trimLeft]
+      · have : e.reverse.isEmpty = false := by simpa using hemp
+        simp only [this, Bool.false_eq_true, ↓reduceIte, csvEmit, List.reverse_reverse]
+        by_cases ht : (trimString e).isEmpty = true
+        · simp [ht]
+        · simp [ht]
+    | cons e2 rest2 =>
+      simp only [joinWith]
+      have hrun : csvRun { part := [], inQuotes := false, escape := false, out := o } (e ++ [','] ++ joinWith [','] (e2 :: rest2)) =
+          csvRun (csvEmit { part := e.reverse, inQuotes := false, escape := false, out := o }) (joinWith [','] (e2 :: rest2)) := by
+        unfold csvRun
+        rw [List.foldl_append, List.foldl_append]
+        have h1 := csvRun_closed e _ _ he { part := [], inQuotes := false, escape := false, out := o } rfl rfl
+        unfold csvRun at h1
+        rw [h1]
+        simp only [List.append_nil, List.foldl_cons, List.foldl_nil]
+        congr 1
+      rw [hrun]
+      have hemit : csvEmit { part := e.reverse, inQuotes := false, escape := false, out := o } =
+          { part := [], inQuotes := false, escape := false, out := if (trimString e).isEmpty then o else trimString e :: o } := by
+        simp [csvEmit]
+      rw [hemit]
+      rw [ih (fun x hx => hp x (List.mem_cons_of_mem _ hx))]
+      by_cases ht : (trimString e).isEmpty = true
+      · simp [ht]
+      · simp [ht]
+
+/-- C12 (list syntax, with quoting): for EVERY list of well-formed elements — quoted-strings with
+    commas, escaped quotes and escaped backslashes included — written with arbitrary optional white
+    space and empty elements, the tokenizer yields exactly the trimmed non-empty elements in order.
+    In particular nothing that follows a quoted-string is ever swallowed into it. -/
+theorem trimmedCSV_join_closed (elems : List Str) (hp : ∀ e ∈ elems, closedElem e = true) :
+    trimmedCSV (joinWith [','] elems) = (elems.map trimString).filter (fun p => !p.isEmpty) := by
+  rw [trimmedCSV_eq]
+  have := csv_join_closed elems hp []
+  simpa using this
+
+
 end Httpcache
